@@ -204,6 +204,8 @@ type outcome struct {
 	Alloc     uint64
 	NodeDirty bool
 	Queued    int // messages the reactor forwarded to the consensus state's queue
+	// the rejection oracle applies to this case
+	RejectExpected bool
 }
 
 func (o *outcome) viol(oracle, f string, a ...interface{}) {
